@@ -131,4 +131,30 @@ theorem runCache_inv (g : Call → Val) : ∀ (cs : List Call) (st : CacheSt) (s
       rw [e] at this
       simp [this]
 
+theorem runCache_append (f : Call → Res Val) : ∀ (st : CacheSt) (xs ys : List Call),
+    runCache f st (xs ++ ys) =
+      ((runCache f (runCache f st xs).1 ys).1, (runCache f st xs).2 ++ (runCache f (runCache f st xs).1 ys).2)
+  | st, [], ys => by simp [runCache]
+  | st, x :: xs, ys => by
+      simp only [List.cons_append, runCache]
+      rw [runCache_append f _ xs ys]
+
+/-- the stored results do not depend on the evaluation log -/
+theorem cacheCall_cache_indep (f : Call → Res Val) (st st' : CacheSt) (c : Call) (h : st.cache = st'.cache) :
+    (cacheCall f st c).1.cache = (cacheCall f st' c).1.cache ∧ (cacheCall f st c).2 = (cacheCall f st' c).2 := by
+  simp only [cacheCall, h]
+  cases st'.cache.lookup (callKey c) with
+  | some v => exact ⟨h, rfl⟩
+  | none =>
+    cases f c with
+    | ok v => simp [h]
+    | error e => simp [h]
+
+theorem runCache_cache_indep (f : Call → Res Val) : ∀ (cs : List Call) (st st' : CacheSt), st.cache = st'.cache →
+    (runCache f st cs).1.cache = (runCache f st' cs).1.cache
+  | [], _, _, h => h
+  | c :: cs, st, st', h => by
+      simp only [runCache]
+      exact runCache_cache_indep f cs _ _ (cacheCall_cache_indep f st st' c h).1
+
 end Pyg
